@@ -4,13 +4,9 @@
    prints the indices where model and implementation differ. *)
 From Coq Require Import ZArith List Bool Uint63.
 From A5 Require Import Base.Outcome Base.Word Id.Codec Id.Tree Id.Compact Id.Hex.
+From A5 Require Export Corr.Lit.
 Import ListNotations.
 Open Scope Z_scope.
-
-(* 64-bit inputs are written as two primitive-integer halves (parsing decimal Z numerals of
-   19 digits costs ~1.5 ms each); U hi lo = hi * 2^32 + lo *)
-Definition U (hi lo : int) : Z := Uint63.to_Z hi * 4294967296 + Uint63.to_Z lo.
-Arguments U (hi lo)%uint63_scope.
 
 (* implementation outcome *)
 Inductive res (A : Type) := ROk (a : A) | RErr | RPanic.
